@@ -405,7 +405,10 @@ class CasXmiDeserializer:
         elif type_.name == TYPE_NAME_STRING_LIST:
             EmptyList = type_.typesystem.get_type(TYPE_NAME_EMPTY_STRING_LIST)
             NonEmptyList = type_.typesystem.get_type(TYPE_NAME_NON_EMPTY_STRING_LIST)
-            conv = str
+
+            def conv(e):
+                # An empty element has no text; it must not become the string "None"
+                return e
         else:
             raise ValueError(f"Unexpected primitive list type: {type_.name}")
 
